@@ -153,6 +153,14 @@ def templates(rng):
     m.GOuter = GO
     GO = dataclasses.dataclass(GO)
     out.append(("generic class holding another specialisation", GO[int], [GO(1, G("s"), [G(True)])], {"generic", "same-name-definitions"}))
+    # a TypeVar with a PEP 696 default, class used without arguments (the serializers use the default)
+    import typing_extensions
+
+    Td = typing_extensions.TypeVar("Td", default=int)
+    GD = types.new_class("GDef", (DataClassDictMixin, typing.Generic[Td]), {}, lambda ns: ns.update({"__annotations__": {"x": Td, "xs": List[Td]}, "__module__": m.__name__}))
+    m.GDef = GD
+    GD = dataclasses.dataclass(GD)
+    out.append(("generic class with a defaulted TypeVar, unparametrized", GD, [GD(1, [2])], {"generic"}))
     m2 = _module()
     mods.append(m2.__name__)
     I1 = _dc(m, "Item", {"x": int})
@@ -201,6 +209,12 @@ def templates(rng):
     OS = _dc(m, "OverSer", {"x": List[int], "d": List[datetime.date]},
              {"x": dataclasses.field(default_factory=list, metadata=field_options(serialize=_keep)), "d": dataclasses.field(default_factory=list, metadata=field_options(serialize=_as_strs))})
     out.append(("callable serialize option on container members", OS, [OS([1, 2], [datetime.date(2024, 2, 29)])], {"overridden-serialization"}))
+    # a serialization_strategy registered for the ORIGIN type (list) of a member typed List[int]
+    def _join(v) -> str:
+        return ",".join(map(str, v))
+
+    SO = _dc(m, "StratOrigin", {"x": List[int], "y": int}, {"Config": cfg(serialization_strategy={list: {"serialize": _join}})})
+    out.append(("serialization_strategy keyed by the origin type", SO, [SO([1, 2], 3)], {"overridden-serialization"}))
     # mutual recursion
     MA = _dc(m, "MutA", {"b": Optional["MutB"]}, {"b": None})
     MB = _dc(m, "MutB", {"a": Optional[MA], "n": Optional[SR]}, {"a": None, "n": None})
